@@ -12,7 +12,7 @@ Files are rewritten only when their content changes, so lake stays incremental."
 import re, sys, os
 
 REPO = os.environ.get("VERIF_REPO", "/repo")
-OUT = os.path.join(os.path.dirname(os.path.abspath(__file__)), "..", "lean", "TinysetModel", "Generated")
+OUT = os.environ.get("VERIF_GEN_OUT") or os.path.join(os.path.dirname(os.path.abspath(__file__)), "..", "lean", "TinysetModel", "Generated")
 
 class TieError(Exception):
     pass
